@@ -785,7 +785,7 @@ _QUICK_ONLY_FOR = {
     "gc.all_released": [], "rc.despawn_dispatch_twice": [],
     "rc.entity_event_2_1_1": ["C01", "C05"], "rc.entity_event_0_0_1": ["C01", "C05"],
     "rc.insertion_2_1_1_1": ["C01"], "rc.mutation_2_1_1_1": ["C01"],
-    "rc.revoke_component_1_0_1": ["C06"], "rc.revoke_component_1_0_0": [],
+    "rc.revoke_component_1_0_1": ["C06", "C01", "C07"], "rc.revoke_component_1_0_0": [],
     "rc.entity_event_dead": [], "rc.revoke_despawn_2_1": ["C06", "C18"], "rc.revoke_broadcast_2_1": ["C06", "C01"],
     "sysevt.drain3": ["C12"], "evt.drain3": ["C03"], "desp.step": ["C12", "C03"], "ent.step": ["C12", "C03"],
     "desp.witness": ["C12"], "ent.witness": ["C12"], "bundle.reactor_types": ["C06", "C16"],
